@@ -19,7 +19,7 @@ ROOT = "/scratch/mut"
 FILES = {
     "src/parse_dsym.rs": ["C01"],
     "src/dsets.rs": ["C01", "C02", "C03", "C04"],
-    "src/dsyms.rs": ["C01", "C02", "C03"],
+    "src/dsyms.rs": ["C01", "C02", "C03", "C07"],
     "src/derived.rs": ["C03", "C04", "C05", "C08"],
     "src/covers.rs": ["C05", "C15"],
     "src/generators/dset_generators.rs": ["C06"],
@@ -74,7 +74,7 @@ def mutable_lines(text):
     out = []
     in_test = False
     for i, l in enumerate(lines):
-        if l.startswith("#[cfg(test)]"):
+        if l.startswith("#[cfg(test)]") or re.match(r"\s*mod tests?\s*\{", l) or l.strip() == "#[test]":
             in_test = True
         if in_test:
             continue
@@ -247,8 +247,16 @@ def report():
         inc = len(d.get("inconclusive", []))
         print(f"| {f} | {n} | {len(d.get('stillborn', []))} | {len(d.get('killed-by-repo-tests', []))} | {k + s + inc} | {k} | {s} | {inc} |")
     print()
+    def in_test_code(r):
+        try:
+            lines = open("/repo/" + r["file"]).read().split("\n")
+        except Exception:
+            return False
+        return any(l.startswith("#[cfg(test)]") or re.match(r"\s*mod tests?\s*\{", l) or l.strip() == "#[test]" for l in lines[: r["line"]])
     for r in rows:
         if r["status"] in ("survived", "inconclusive", "error"):
+            if in_test_code(r):
+                continue
             print(f"{r['status'].upper()} {r['file']}:{r['line']}  [{r['op']}]\n    - {r['old']}\n    + {r['new']}\n    {r.get('checks', r.get('detail'))}")
 
 
